@@ -3700,6 +3700,133 @@ pub proof fn theorem_c08_unknown(s: Seq<char>, rt: Result<GenericPurl<PackageTyp
     if cr is Ok { assert(lower_ascii_seq(a.ty) == type_name(cr->Ok_0)); }
 }
 
+// ---- unit theory.serde_post  <= (contracts):0 ----
+// ---- R9 (continued): the error side of the serde stubs and the deserialising postcondition (shared by group `serde`, where the
+// three impl blocks are verified against it, and group `c01`, where the round-trip theorems are stated over it) ----
+pub trait Error: Sized {
+    spec fn custom_spec<M>(msg: M) -> Self;
+    fn custom<M>(msg: M) -> (r: Self)
+        ensures r == Self::custom_spec(msg);
+}
+
+/// C16, deserialising side: a string value is accepted exactly when the parser accepts it, with the parser's value;
+/// the parser's error is handed to the format unchanged; anything that is not a string is refused
+pub open spec fn de_post<T, E: Error>(v: Seq<char>, r: Result<GenericPurl<T>, E>) -> bool
+    where T: FromStr + PurlShape, <T as PurlShape>::Error: From<<T as FromStr>::Err>
+{
+    exists|pr: Result<GenericPurl<T>, <T as PurlShape>::Error>| #[trigger] parse_post::<T>(v, pr) && match pr {
+        Ok(p) => r == Ok::<GenericPurl<T>, E>(p),
+        Err(e) => r == Err::<GenericPurl<T>, E>(E::custom_spec(e)),
+    }
+}
+
+// ---- unit theory.c16  <= (contracts):0 ----
+// ---- C16: the serde form is the string form -- round trip as a theorem over the contracts of the three impl blocks ----
+// `serialize` hands the format exactly `canon_spec(type, parts)` as one string value (contract `ser_text`, group `serde`);
+// `deserialize` answers a string value `v` with `de_post(v, r)` (group `serde`). What the FORMAT does with that one string value
+// (quoting, escaping, reading it back as the same string) is the data format's business: dependency, exercised by B with serde_json.
+
+/// a value the parser returned, serialised, the string handed back unchanged to `deserialize`: accepted, same type, same field
+/// texts, same canonical string
+pub proof fn theorem_c16_plain<T: FromStr + PurlShape, E: Error>(s: Seq<char>, g: GenericPurl<T>, r: Result<GenericPurl<T>, E>)
+    where <T as PurlShape>::Error: From<<T as FromStr>::Err>
+    requires
+        plain_shape::<T>(),
+        parse_post::<T>(s, Ok::<GenericPurl<T>, <T as PurlShape>::Error>(g)),
+        de_post::<T, E>(canon_spec(g.package_type.type_text(), g.parts), r),
+    ensures
+        r is Ok,
+        r->Ok_0.package_type.type_text() == g.package_type.type_text(),
+        same_texts(r->Ok_0.parts, g.parts),
+        canon_spec(r->Ok_0.package_type.type_text(), r->Ok_0.parts) == canon_spec(g.package_type.type_text(), g.parts),
+{
+    let c = canon_spec(g.package_type.type_text(), g.parts);
+    let pr = choose|pr: Result<GenericPurl<T>, <T as PurlShape>::Error>| #[trigger] parse_post::<T>(c, pr) && match pr {
+        Ok(p) => r == Ok::<GenericPurl<T>, E>(p),
+        Err(e) => r == Err::<GenericPurl<T>, E>(E::custom_spec(e)),
+    };
+    theorem_c01_plain::<T>(s, g, pr);
+}
+
+pub proof fn theorem_c16_typed<E: Error>(s: Seq<char>, g: GenericPurl<PackageType>, r: Result<GenericPurl<PackageType>, E>)
+    requires
+        parse_post::<PackageType>(s, Ok::<GenericPurl<PackageType>, PackageError>(g)),
+        de_post::<PackageType, E>(canon_spec(g.package_type.type_text(), g.parts), r),
+    ensures
+        r is Ok,
+        r->Ok_0.package_type == g.package_type,
+        same_texts(r->Ok_0.parts, g.parts),
+        canon_spec(r->Ok_0.package_type.type_text(), r->Ok_0.parts) == canon_spec(g.package_type.type_text(), g.parts),
+{
+    let c = canon_spec(g.package_type.type_text(), g.parts);
+    let pr = choose|pr: Result<GenericPurl<PackageType>, PackageError>| #[trigger] parse_post::<PackageType>(c, pr) && match pr {
+        Ok(p) => r == Ok::<GenericPurl<PackageType>, E>(p),
+        Err(e) => r == Err::<GenericPurl<PackageType>, E>(E::custom_spec(e)),
+    };
+    theorem_c01_typed(s, g, pr);
+}
+
+/// a value the builder returned: accepted, and equal up to the insignificant segments the builder does not remove itself (C09)
+pub proof fn theorem_c16_built_plain<T: FromStr + PurlShape, E: Error>(t0: T, p0: PurlParts, t1: T, p1: PurlParts, fr: Result<(), <T as PurlShape>::Error>,
+                                                                        g: GenericPurl<T>, r: Result<GenericPurl<T>, E>)
+    where <T as PurlShape>::Error: From<<T as FromStr>::Err>
+    requires
+        plain_shape::<T>(),
+        wf_seq(p0.qualifiers.qualifiers@),
+        T::finish_rel(t0, p0, t1, p1, fr), build_post::<T>(t1, p1, fr, Ok::<GenericPurl<T>, <T as PurlShape>::Error>(g)),
+        de_post::<T, E>(canon_spec(g.package_type.type_text(), g.parts), r),
+    ensures
+        r is Ok,
+        r->Ok_0.package_type.type_text() == g.package_type.type_text(),
+        r->Ok_0.parts.name@ == g.parts.name@, r->Ok_0.parts.version@ == g.parts.version@,
+        r->Ok_0.parts.namespace@ == sig_ns(g.parts.namespace@), r->Ok_0.parts.subpath@ == sig_sub(g.parts.subpath@),
+        kvs(r->Ok_0.parts.qualifiers.qualifiers@) == kvs(g.parts.qualifiers.qualifiers@),
+{
+    let c = canon_spec(g.package_type.type_text(), g.parts);
+    let pr = choose|pr: Result<GenericPurl<T>, <T as PurlShape>::Error>| #[trigger] parse_post::<T>(c, pr) && match pr {
+        Ok(p) => r == Ok::<GenericPurl<T>, E>(p),
+        Err(e) => r == Err::<GenericPurl<T>, E>(E::custom_spec(e)),
+    };
+    theorem_c09_plain::<T>(t0, p0, t1, p1, fr, g, pr);
+}
+
+pub proof fn theorem_c16_built_typed<E: Error>(t0: PackageType, p0: PurlParts, t1: PackageType, p1: PurlParts, fr: Result<(), PackageError>,
+                                               g: GenericPurl<PackageType>, r: Result<GenericPurl<PackageType>, E>)
+    requires
+        wf_seq(p0.qualifiers.qualifiers@),
+        PackageType::finish_rel(t0, p0, t1, p1, fr), build_post::<PackageType>(t1, p1, fr, Ok::<GenericPurl<PackageType>, PackageError>(g)),
+        de_post::<PackageType, E>(canon_spec(g.package_type.type_text(), g.parts), r),
+    ensures
+        r is Ok,
+        r->Ok_0.package_type == g.package_type,
+        r->Ok_0.parts.name@ == g.parts.name@, r->Ok_0.parts.version@ == g.parts.version@,
+        r->Ok_0.parts.namespace@ == sig_ns(g.parts.namespace@), r->Ok_0.parts.subpath@ == sig_sub(g.parts.subpath@),
+        kvs(r->Ok_0.parts.qualifiers.qualifiers@) == kvs(g.parts.qualifiers.qualifiers@),
+{
+    let c = canon_spec(g.package_type.type_text(), g.parts);
+    let pr = choose|pr: Result<GenericPurl<PackageType>, PackageError>| #[trigger] parse_post::<PackageType>(c, pr) && match pr {
+        Ok(p) => r == Ok::<GenericPurl<PackageType>, E>(p),
+        Err(e) => r == Err::<GenericPurl<PackageType>, E>(E::custom_spec(e)),
+    };
+    theorem_c09_typed(t0, p0, t1, p1, fr, g, pr);
+}
+
+/// the refusing side: a string the parser refuses is refused by `deserialize`, with the parser's error handed to the format
+pub proof fn theorem_c16_refused<T: FromStr + PurlShape, E: Error>(v: Seq<char>, pr: Result<GenericPurl<T>, <T as PurlShape>::Error>, r: Result<GenericPurl<T>, E>)
+    where <T as PurlShape>::Error: From<<T as FromStr>::Err>
+    requires
+        de_post::<T, E>(v, r),
+        r is Err,
+    ensures
+        exists|pr: Result<GenericPurl<T>, <T as PurlShape>::Error>| #[trigger] parse_post::<T>(v, pr) && pr is Err && r == Err::<GenericPurl<T>, E>(E::custom_spec(pr->Err_0)),
+{
+    let pr = choose|pr: Result<GenericPurl<T>, <T as PurlShape>::Error>| #[trigger] parse_post::<T>(v, pr) && match pr {
+        Ok(p) => r == Ok::<GenericPurl<T>, E>(p),
+        Err(e) => r == Err::<GenericPurl<T>, E>(E::custom_spec(e)),
+    };
+    assert(parse_post::<T>(v, pr) && pr is Err && r == Err::<GenericPurl<T>, E>(E::custom_spec(pr->Err_0)));
+}
+
 
 // ---- consistency canary: must be REJECTED; if it verifies the assumptions are contradictory ----
 pub proof fn verif_canary_must_fail()
@@ -3736,6 +3863,12 @@ pub proof fn verif_vacuity_c08_agree_must_fail<T: FromStr + PurlShape>(s: Seq<ch
 pub proof fn verif_vacuity_c08_unknown_must_fail(s: Seq<char>, rt: Result<GenericPurl<PackageType>, PackageError>)
     requires phase_a(s) is Ok, forall|t: PackageType| lower_ascii_seq(phase_a(s)->Ok_0.ty) != #[trigger] type_name(t),
         parse_post::<PackageType>(s, rt),
+    ensures false
+{ }
+pub proof fn verif_vacuity_c16_must_fail<E: Error>(s: Seq<char>, g: GenericPurl<PackageType>, r: Result<GenericPurl<PackageType>, E>)
+    requires
+        parse_post::<PackageType>(s, Ok::<GenericPurl<PackageType>, PackageError>(g)),
+        de_post::<PackageType, E>(canon_spec(g.package_type.type_text(), g.parts), r),
     ensures false
 { }
 pub proof fn verif_vacuity_c09_typed_must_fail(t0: PackageType, p0: PurlParts, t1: PackageType, p1: PurlParts, fr: Result<(), PackageError>,
